@@ -31,7 +31,7 @@ def plan(tier, seed):
 
 def floors(tier):
     strata = ["%s/%s" % (a, c) for a in ("overlap", "simple") for c in ("fits", "split-2", "split-3+")] + \
-             ["overlap/wide-label", "overlap/le2-labels-unfit", "none/no-split-expected", "overlap/no-split-expected", "engine-reported-layering", "engine-reconfigured"]
+             ["overlap/wide-label", "overlap/le2-labels-unfit", "none/no-split-expected", "overlap/no-split-expected", "engine-reported-layering", "engine-reconfigured", "engine-recompute-after-in-place-changes"]
     return {"evaluations": 800, "strata": strata, "events": {"Distributor.distribute": 800, "Force.compute": 300}, "distinct_nontrivial": 150}
 
 
@@ -110,14 +110,30 @@ def run_engine(ctx, mon, labels, opts, tag, first=None):
         f = Force(dict(first))
         f.set_options(dict(opts))
         ctx.stratum("engine-reconfigured", generated=1, judged=1, held=1)
-    f.nodes(WL.make_nodes(labels))
+    lst = WL.make_nodes(labels)
+    f.nodes(lst)
     try:
         f.compute()
+        if hash(repr(labels[:3])) % 5 == 1:
+            # the caller's list grows and a label widens in place, no setter is called, compute() again: the engine reports the
+            # layering of what it holds now
+            from labella.node import Node
+
+            mon.drain()
+            lst.append(Node(labels[0]["pos"] + 17.0, max(l["w"] for l in labels) * 3 + 5, data=("L", len(labels))))
+            lst[0].width = lst[0].width * 2 + 1
+            f.compute()
+            ctx.stratum("engine-recompute-after-in-place-changes", generated=1, judged=1, held=1)
     except Exception as e:
         mon.drain()
         ctx.judge("engine/raised", VIOLATED, case, finding="compute raised %s: %s" % (type(e).__name__, e), key="raised " + type(e).__name__)
         return
     recs = mon.drain()
+    if len(recs) == 1 and recs[0]["distribute"] is None and recs[0]["exc"] is None and recs[0]["force"].getLayers():
+        # compute() finished without going through the hooked layering step: fall back to the property's own observation
+        # boundary - the layering the engine reports for the labels it holds
+        recs[0]["distribute"] = {"layers": [list(L) for L in recs[0]["force"].getLayers()]}
+        ctx.path("layering-taken-from-getLayers")
     if len(recs) != 1 or recs[0]["distribute"] is None or recs[0]["distribute"]["layers"] is None:
         ctx.judge("engine", INCONCLUSIVE, case, reason="monitor did not see the layering step inside compute()")
         return
